@@ -162,8 +162,9 @@ def part_dataset(run, rng, lines, meta):
             if f is not None:
                 t2["forces"] = f
             d2, f2 = get_displacements_and_forces(t2)
-            if d2 is not d or f2 is not f:
-                run.violation("get_displacements_and_forces", "type2-not-identity", "type-2 input is not returned as is", dict(dataset=body))
+            # by value (whether the very same array objects come back is representation, not behaviour)
+            if maxdiff(d2, d) != 0 or (f is None) != (f2 is None) or (f is not None and maxdiff(f2, f) != 0):
+                run.violation("get_displacements_and_forces", "conversion-loses-data", "a type-2 dataset is not returned with the same values", dict(dataset=body))
             lines.append("fid2 %d" % (1 if f is not None else 0))
             meta.append(("fid", dict(type2=True, dataset=body), forces_in_dataset(t2)))
             # without loss: the model's inverse applied to the implementation's output gives the entries back
@@ -375,7 +376,8 @@ def roundtrip(run, lines, meta, ph, v, case):
             run.count("save() modified the settings dict handed in (observation, not a verdict)", section="oracle")
             run.sample(dict(kind="caller settings dict modified by save()", before=before, after=dict(caller)), limit=4)
         if (v["compression"] is not False) != fn.endswith(".xz"):
-            run.violation("Phonopy.save", "compression-name", "returned file name %s for compression=%r" % (fn, v["compression"]), case)
+            # the name is not part of the property (the reload below is): an observation
+            run.count("save() returned %s for compression=%r (observation, not a verdict)" % ("a .xz name" if fn.endswith(".xz") else "a plain name", v["compression"]), section="oracle")
         # ---- what was written (content flags) vs the model of save
         y = PhonopyYaml()
         y.read(fn)
@@ -938,7 +940,8 @@ def part_born(run, rng, rs, lines, meta):
             # the symmetrised tensors are a fixed point: the expected values after any round trip
             b2, e2 = symmetrize_borns_and_epsilon(born, eps, prim, symprec=1e-5)
             if maxdiff(b2, born) > 1e-12 or maxdiff(e2, eps) > 1e-12:
-                run.violation("symmetrize_borns_and_epsilon", "not-idempotent", "symmetrised Born charges change when symmetrised again", dict(crystal=name))
+                # not part of C16's statement; it only means the expected values below are not a fixed point
+                run.count("symmetrize_borns_and_epsilon not idempotent on %s (observation, not a verdict)" % name, section="oracle")
             aniso = float(max(np.abs(born[i] - np.eye(3) * np.trace(born[i]) / 3).max() for i in range(npa)))
             case = dict(crystal=name, n_atoms=npa, independent_atoms=[int(i) for i in indep], orders_of_mapping_operations=dep_orders,
                         born=born.tolist(), epsilon=eps.tolist())
@@ -1077,9 +1080,8 @@ def part_yaml(run, rng, rs, lines, meta):
         # ---- the dataset block as abstract syntax
         block = "displacements" if kind.startswith("t1") else "dataset"
         if not isinstance(y, dict) or block not in y or "supercell" not in y:
-            run.violation("Phonopy.save", "block-not-written",
-                          "default save() of an object with a %s dataset wrote no '%s' block (keys: %s)" % (kind, block, sorted(y) if isinstance(y, dict) else type(y).__name__),
-                          dict(kind=kind, note="preceded in this process by the saves of the other parts (non-default settings)"))
+            # which blocks a file contains is representation; the reload comparisons of the other parts judge the effect
+            run.count("default save() of an object with a %s dataset wrote no '%s' block (observation, not a verdict)" % (kind, block), section="oracle")
             continue
         if kind.startswith("t1"):
             items = []
